@@ -132,4 +132,23 @@ func runC38(p *core.Prog, r *core.Report) {
 	// ---------------- R4 the membership answer behind the gate is never a stale one after a failed refresh
 	r4 := r.Rule("C38.R4", "the inner ring indexer marks its cache fresh only after both lists were fetched successfully (shared with C35.R2): a failed refresh cannot make IsAlphabet answer from stale or zero-valued indexes", 2)
 	indexerStampOnlyAfterRefresh(p, r, r4)
+	// ---------------- R5 the counter the tick adds one to is the notified epoch on every path
+	r5 := r.Rule("C38.R5", "processNewEpoch records the notified epoch (SetEpochCounter with the event's own epoch number) on every path, before anything that can end the handler early: the tick asks for EpochCounter()+1, so a counter left at the old value makes the next tick ask for the epoch the chain is already in", 1)
+	if fn := p.Func(npT + ".processNewEpoch"); fn == nil {
+		r.Fatalf("C38.R5: processNewEpoch not found")
+	} else {
+		isEpochNo := func(v ssa.Value) bool {
+			c, ok := v.(*ssa.Call)
+			return ok && strings.HasSuffix(core.CalleeName(c), "NewEpoch).EpochNumber")
+		}
+		rec := core.Guard{Name: "epoch-recorded", Comps: []core.Comp{{Result: -1, Kind: core.Executed}}, Match: func(s core.Site) bool {
+			a := s.Call.Common().Args
+			return strings.HasSuffix(s.Name, ").SetEpochCounter") && len(a) > 0 && isEpochNo(a[len(a)-1])
+		}}
+		core.CheckEffectsFn(p, r5, fn, core.EffectRule{Min: 1, Guards: []core.Guard{rec}, Effect: func(_ *core.Prog, in ssa.Instruction) (string, bool) {
+			_, ok := in.(*ssa.Return)
+			return "handler-ends", ok
+		}})
+	}
+	r.Explain += " (R5) the handler of the NewEpoch notification stores the notified epoch number in the shared epoch state on every path to every return (a failed netmap read or timer reset does not skip it); R3's 'EpochCounter()+1' is the next epoch only then."
 }
